@@ -130,7 +130,12 @@ pub fn run(ctx: &Ctx) -> (Report, Meta) {
         }
         // nothing later than the event
         if let Some(k) = a.t.iter().position(|&x| (x - te) * dirn > 0.0) {
-            rep.violate(&sig("sample_after_event"), format!("sample t[{}] = {:e} lies after the terminal event at {:e}", k, a.t[k], te), &case_id, case.clone());
+            let mut c2 = case.clone();
+            c2["reported_t"] = crate::util::jv_trunc(&a.t, 60);
+            c2["reported_events"] = json!(a.t_events);
+            c2["twin_events"] = json!(t.t_events);
+            c2["twin_t"] = crate::util::jv_trunc(&t.t, 60);
+            rep.violate(&sig("sample_after_event"), format!("sample t[{}] = {:e} lies after the terminal event at {:e}", k, a.t[k], te), &case_id, c2);
         }
         let mut others_in_step = false;
         for e in 0..nev {
